@@ -31,6 +31,8 @@
 (*   "CloseKeepsClient"   a failed QUIT leaves Client() non-nil.           *)
 (*   "CloseAgainPanics"   Close / DirectClose on an object whose Client()  *)
 (*        is nil dereferences nil.                                         *)
+(*   "HelloNamePlain"     the configured host name is sent in the EHLO     *)
+(*        that precedes a required STARTTLS.                               *)
 (***************************************************************************)
 EXTENDS SmtpClientObs, TLC, Json
 
@@ -66,8 +68,8 @@ OptOf(n) ==
 
 Args(f) == [x \in DOMAIN NoArgs |-> IF x \in DOMAIN f THEN f[x] ELSE NoArgs[x]]
 
-NoCmd == [verb |-> "", par |-> {}, ak |-> "", an |-> 0]
-Cmd(verb) == [verb |-> verb, par |-> {}, ak |-> "", an |-> 0]
+NoCmd == [verb |-> "", hn |-> "", par |-> {}, ak |-> "", an |-> 0]
+Cmd(verb) == [verb |-> verb, hn |-> "", par |-> {}, ak |-> "", an |-> 0]
 NoRes == [set |-> FALSE, ok |-> TRUE, cls |-> {}, id |-> 0, sts |-> <<>>, panic |-> FALSE]
 Ok == [set |-> TRUE, ok |-> TRUE, cls |-> {"ok"}, id |-> 0, sts |-> <<>>, panic |-> FALSE]
 Err(cls, id) == [set |-> TRUE, ok |-> FALSE, cls |-> cls, id |-> id, sts |-> <<>>, panic |-> FALSE]
@@ -101,10 +103,14 @@ IoFail(x) == x.k \in {"eof", "timeout", "garb"}
 
 Adv(tls) == IF tls THEN ExtOf(cfg.ext) \ {"STARTTLS"} ELSE ExtOf(cfg.ext)
 HelloVerb(lm) == IF lm THEN "LHLO" ELSE "EHLO"
-
+(* the name the client introduces itself with: localhost while STARTTLS is still to come *)
+Plain(S) == cur.a.tls /\ ~S.cl.tls
+HelloCmd(S, verb) == [Cmd(verb) EXCEPT !.hn = IF Plain(S) /\ "HelloNamePlain" \notin Devs THEN "local" ELSE "name"]
 Done(S, r) == [S EXCEPT !.snd = NoCmd, !.res = r]
 Send(S, c, nip) == [S EXCEPT !.snd = c, !.ip = nip]
 CloseConn(S) == [S EXCEPT !.cl.copen = FALSE]
+SendHello(S, verb, nip) ==
+  [Send(S, HelloCmd(S, verb), nip) EXCEPT !.devs = IF Plain(S) /\ "HelloNamePlain" \in Devs THEN @ \cup {"HelloNamePlain"} ELSE @]
 
 (* an I/O failure inside Mail / Rcpt / Data / LMTPData: the connection is unusable *)
 Poison(S, x) ==
@@ -128,19 +134,19 @@ LmtpSummary(sts) ==
 
 React(S, x) ==
   CASE S.ip = "greet" ->
-         IF x.k = "pos" THEN Send(S, Cmd(HelloVerb(cur.a.lmtp)), "hello")
+         IF x.k = "pos" THEN SendHello(S, HelloVerb(cur.a.lmtp), "hello")
          ELSE Done(CloseConn(S), ErrOf(x))
     [] S.ip = "hello" ->
          IF x.k = "pos" THEN AfterHello([S EXCEPT !.cl.ext = Adv(S.cl.tls)])
          ELSE IF x.k = "neg" /\ x.r \in {"e500", "e502"} /\ (~cur.a.lmtp \/ "LmtpHeloFallback" \in Devs)
-              THEN [Send(S, Cmd("HELO"), "helo") EXCEPT !.devs = IF cur.a.lmtp THEN @ \cup {"LmtpHeloFallback"} ELSE @]
+              THEN [SendHello(S, "HELO", "helo") EXCEPT !.devs = IF cur.a.lmtp THEN @ \cup {"LmtpHeloFallback"} ELSE @]
          ELSE Done(CloseConn(S), ErrOf(x))
     [] S.ip = "helo" ->
          IF x.k = "pos" THEN AfterHello([S EXCEPT !.cl.ext = {}])
          ELSE Done(CloseConn(S), ErrOf(x))
     [] S.ip = "stls" ->
          IF x.k = "pos"
-         THEN IF cfg.cert = "valid" THEN Send([S EXCEPT !.cl.tls = TRUE], Cmd(HelloVerb(cur.a.lmtp)), "hello")
+         THEN IF cfg.cert = "valid" THEN SendHello([S EXCEPT !.cl.tls = TRUE], HelloVerb(cur.a.lmtp), "hello")
               ELSE Done([CloseConn(S) EXCEPT !.alive = FALSE], Err({"unspec"}, 0))
          ELSE [Send(S, Cmd("QUIT"), "cquit") EXCEPT      \* TLSError: the reply is handed on without the 552 -> 452 rewrite
                  !.perr = IF x.k = "neg" /\ x.r = "p552" THEN Err({"perm"}, x.id) ELSE ErrOf(x)]
@@ -163,7 +169,8 @@ React(S, x) ==
          THEN IF x.k = "pos" THEN Done(S, Ok) ELSE Done(Poison(S, x), ErrOf(x))
          ELSE IF IoFail(x) \/ x.k = "mism"
               THEN Done(Poison(S, x), [Err(NotPerm, 0) EXCEPT !.sts = IF cur.c = "LData" THEN S.dsts ELSE <<>>])
-              ELSE LET st == IF x.k = "pos" THEN [cls |-> "ok", id |-> 0] ELSE [cls |-> ClassOf(x.r), id |-> x.id]
+              ELSE LET st == IF x.k = "pos" THEN [cls |-> "ok", id |-> 0]       \* statuses are handed on without the 552 -> 452 rewrite
+                             ELSE [cls |-> IF x.r = "p552" THEN "perm" ELSE ClassOf(x.r), id |-> x.id]
                        ds == Append(S.dsts, st)
                    IN IF Len(ds) < S.cl.nacc THEN [S EXCEPT !.dsts = ds, !.snd = Cmd("DOT")]
                       ELSE IF cur.c = "LData" THEN Done([S EXCEPT !.dsts = ds], [Ok EXCEPT !.sts = ds])
@@ -276,11 +283,11 @@ Call(c, a) ==
                        \cup (IF a.utf8 /\ u8 THEN {"SMTPUTF8"} ELSE {})
             IN IF a.utf8 /\ ~u8 /\ a.ak = "nl" THEN Install(Done(S0, Err({"perm"}, 0)), wc)
                ELSE IF a.rtls /\ "REQUIRETLS" \notin cl.ext THEN Install(Done(S0, Err({"unspec"}, 0)), wc)
-               ELSE Install(Send(S0, [verb |-> "MAIL", par |-> par, ak |-> Wire(a.ak, u8), an |-> 0], "mail"), wc)
+               ELSE Install(Send(S0, [verb |-> "MAIL", hn |-> "", par |-> par, ak |-> Wire(a.ak, u8), an |-> 0], "mail"), wc)
        [] c = "Rcpt" ->
             LET u8 == "SMTPUTF8" \in cl.ext
             IN IF a.ak = "nl" /\ ~u8 THEN Install(Done(S0, Err({"perm"}, 0)), wc)
-               ELSE Install(Send(S0, [verb |-> "RCPT", par |-> {}, ak |-> Wire(a.ak, u8), an |-> a.an], "rcpt"), wc)
+               ELSE Install(Send(S0, [verb |-> "RCPT", hn |-> "", par |-> {}, ak |-> Wire(a.ak, u8), an |-> a.an], "rcpt"), wc)
        [] c \in {"Data", "LData"} -> Install(Send(S0, Cmd("DATA"), "data"), wc)
        [] c = "Reset" -> IF ~cl.cli THEN Install(Done(S0, AnyErr), wc) ELSE Install(Send(S0, Cmd("RSET"), "rset"), wc)
        [] c = "Noop"  -> IF ~cl.cli THEN Install(Done(S0, AnyErr), wc) ELSE Install(Send(S0, Cmd("NOOP"), "noop"), wc)
@@ -303,7 +310,8 @@ SlotChoices(verb) ==
   LET base == Replies \cup {"ok"}
       k1 == IF verb \in {"EHLO", "LHLO", "HELO"} THEN base \ {"okm", "extra"} ELSE base \ {"e500", "e502", "extra"}
       k2 == IF verb = "DOT" /\ cfg.lmtp /\ Len(SlotsOf(obs, {"DOT"})) + 1 = w.ndot THEN k1 \cup (Replies \cap {"extra"}) ELSE k1
-      k3 == IF lateUsed THEN k2 \ (LateK \cup {"drop", "garb"}) ELSE k2
+      k2b == IF verb = "STARTTLS" THEN k2 \ {"lok"} ELSE k2      \* a late 220 leaves the next hop waiting for a TLS hello: not modelled
+      k3 == IF lateUsed THEN k2b \ (LateK \cup {"drop", "garb"}) ELSE k2b
   IN {r \in k3 : r = "ok" \/ (nf < MaxFaults /\ w.nid >= FaultAfter)}
 
 InOrder(verb) ==
@@ -333,11 +341,11 @@ SrvGreet(id, r) ==
   /\ Budget(r) /\ hist' = HR(r)
   /\ UNCHANGED <<cfg, tp, cur>>
 
-SrvCmd(verb, par, ak, an, id, r, tls) ==
+SrvCmd(verb, hn, par, ak, an, id, r, tls) ==
   /\ pc = "srv" /\ out.verb \notin {"GREET", "CONTENT", "DOT"}
-  /\ verb = out.verb /\ par = out.par /\ ak = out.ak /\ an = out.an /\ tls = cl.tls /\ id = w.nid + 1
+  /\ verb = out.verb /\ hn = out.hn /\ par = out.par /\ ak = out.ak /\ an = out.an /\ tls = cl.tls /\ id = w.nid + 1
   /\ IF InOrder(verb) THEN r \in SlotChoices(verb) ELSE r = "seq"
-  /\ obs' = ObsCmd(obs, [verb |-> verb, par |-> par, ak |-> ak, an |-> an, id |-> id, r |-> r, tls |-> tls])
+  /\ obs' = ObsCmd(obs, [verb |-> verb, hn |-> hn, par |-> par, ak |-> ak, an |-> an, id |-> id, r |-> r, tls |-> tls])
   /\ Answer(verb, id, r, verb = "QUIT" /\ r \in SrvPos)      \* the next hop closes after its 221
   /\ IF InOrder(verb) THEN Budget(r) /\ hist' = HR(r) ELSE UNCHANGED <<nf, lateUsed, hist>>
   /\ UNCHANGED <<cfg, tp, cur>>
@@ -424,7 +432,7 @@ Next ==
   \/ (pc = "idle" /\ \E c \in Calls, a \in CallArgs : Call(c, a))
   \/ (pc = "srv" /\ out.verb = "GREET" /\ \E r \in SlotChoices("GREET") : SrvGreet(w.nid + 1, r))
   \/ (pc = "srv" /\ out.verb \notin {"GREET", "CONTENT", "DOT"} /\
-        \E r \in SlotChoices(out.verb) \cup {"seq"} : SrvCmd(out.verb, out.par, out.ak, out.an, w.nid + 1, r, cl.tls))
+        \E r \in SlotChoices(out.verb) \cup {"seq"} : SrvCmd(out.verb, out.hn, out.par, out.ak, out.an, w.nid + 1, r, cl.tls))
   \/ SrvContent(TRUE)
   \/ (pc = "dot" /\ \E r \in SlotChoices("DOT") : SrvDot(Len(SlotsOf(obs, {"DOT"})) + 1, w.nid + 1, r))
   \/ (pc = "ret" /\ \E r \in Predicted : Ret(r))
